@@ -15,6 +15,7 @@ dump; it is not yet a theorem there (`_partial`).
 -/
 import BRV.Proofs.RepoBasics
 import BRV.Proofs.RepoLookup
+import BRV.Proofs.RepoExample
 
 namespace BRV.Repo
 
@@ -201,57 +202,11 @@ theorem C09_wf_submissions (r : Repo) (hs : List (Hdr × Bool)) (hr : RepoWF r) 
 
 /-! ### non-vacuity -/
 
-def exR9 : Repo :=
-  { arena := [{ parent := none, parentHeight := -1, first := { id := 0, prev := 99, bits := 0x1d00ffff, time := 1 },
-                offset := 1, headers := [{ hdr := { id := 0, prev := 99, bits := 0x1d00ffff, time := 1 }, work := 4295032833 }],
-                hmap := [(0, 0)] }],
-    branches := [0], longest := 0, heights := [(0, 0)], disableDifficulty := true }
+def exR9 : Repo := genesisRepo
 
 example : checkHeader exR9 0 = .ok (0, true) ∧ checkHeader exR9 5 = .error .unknown := ⟨by rfl, by rfl⟩
 
 /-- the genesis-only repository is well-formed (the hypotheses of the theorems above are met). -/
-theorem exR9_wf : RepoWF exR9 := by
-  have hget : ∀ (bi : Nat) (b : Branch), exR9.arena[bi]? = some b → bi = 0 ∧ b = exR9.arena[0] := by
-    intro bi b hb
-    cases bi with
-    | zero => simp [exR9] at hb ⊢; exact hb.symm
-    | succ n => simp [exR9] at hb
-  have hk : ∀ (k : Nat) (d : HData), (exR9.arena[0]).headers[k]? = some d → k = 0 := by
-    intro k d hk
-    cases k with
-    | zero => rfl
-    | succ n => simp [exR9] at hk
-  refine ⟨linkWF_single _ rfl rfl _ rfl rfl, ⟨?_, ?_, ?_⟩, ⟨by simp [exR9], by simp [exR9]⟩, ?_⟩
-  · intro bi hlt; simp [exR9] at hlt ⊢; omega
-  · intro bi b hb
-    obtain ⟨rfl, rfl⟩ := hget bi b hb
-    intro id x
-    constructor
-    · intro hg
-      simp only [exR9, List.getElem_cons_zero, HMap.get?, List.lookup] at hg
-      by_cases hid : id = 0
-      · subst hid
-        simp only [BEq.rfl, Option.some.injEq] at hg
-        exact ⟨0, _, rfl, rfl, by rw [← hg]; rfl⟩
-      · have : (id == 0) = false := by simpa using hid
-        simp only [this] at hg; cases hg
-    · rintro ⟨k, d, hk', hid, hx⟩
-      have := hk k d hk'
-      subst this
-      simp only [exR9, List.getElem_cons_zero, List.getElem?_cons_zero, Option.some.injEq] at hk'
-      subst hk'; subst hid; subst hx
-      rfl
-  · intro bi bj b c k l d e hb hc hk1 hl1 _
-    obtain ⟨rfl, rfl⟩ := hget bi b hb
-    obtain ⟨rfl, rfl⟩ := hget bj c hc
-    exact ⟨rfl, by rw [hk k d hk1, hk l e hl1]⟩
-  · intro id x hg
-    simp only [exR9, HMap.get?, List.lookup] at hg
-    by_cases hid : id = 0
-    · subst hid
-      simp only [BEq.rfl, Option.some.injEq] at hg
-      exact ⟨0, _, 0, _, rfl, rfl, rfl, by rw [← hg]; rfl⟩
-    · have : (id == 0) = false := by simpa using hid
-      simp only [this] at hg; cases hg
+example : RepoWF genesisRepo := genesisRepo_wf
 
 end BRV.Repo
